@@ -4,9 +4,9 @@ sequence of per-pass *outcomes* with exact binary arithmetic (tol = 0.5, steps a
 
 Outcome alphabet (as in models/SolveT.tla) and its concretisation variants:
 
-    conv   0: A += .25, B -= .25       1: no move               2: A -= .25 only
+    conv   0: A += .25, B -= .25       1: no move (from a non-finite state: fresh values within tol of 0)   2: A -= .25 only   3: A += .25 via a rebinding list assignment
     moved  0: far (A = 10000 n + 1, B = -(10000 n + 1))   1: B += tol exactly (strict <, last variable only)
-           2: A -= tol exactly (absolute value, first variable only)   3: only B far   4: A -= 1.0 only
+           2: A -= tol exactly (absolute value, first variable only)   3: only B far   4: A -= 1.0 only   5: B far via a rebinding list assignment
     nanw   0: A = 1/0 (np.float64, RuntimeWarning)   1: B = log(0)   2: A = 0/0
     nans   0: B = nan   1: A = +inf   2: B = -inf      (stored silently)
     exc    0: raise Boom   1: Python 1.0/0.0 (ZeroDivisionError)
@@ -21,7 +21,7 @@ import fsic
 
 TOL = 0.5
 
-VARIANTS = {'conv': 3, 'moved': 5, 'nanw': 3, 'nans': 3, 'exc': 2}
+VARIANTS = {'conv': 4, 'moved': 6, 'nanw': 3, 'nans': 3, 'exc': 2}
 
 
 class Boom(Exception):
@@ -80,6 +80,11 @@ class ScriptedBase:
         nonfinite = not (np.isfinite(self._A[t]) and np.isfinite(self._B[t]))
         if o in ('conv', 'moved') and nonfinite:
             s = d['_sc_n'][p]
+            if o == 'conv' and v == 1:
+                # fresh values within tol of zero: a pass that starts from non-finite values is not judged even then
+                self._A[t] = 0.25
+                self._B[t] = -0.25
+                return
             self._A[t] = 8.0 * s + 500.0 * (o == 'moved')
             self._B[t] = -8.0 * s - 500.0 * (o == 'moved')
             return
@@ -89,6 +94,10 @@ class ScriptedBase:
                 self._B[t] -= 0.25
             elif v == 2:
                 self._A[t] -= 0.25
+            elif v == 3:
+                vals = self._A.tolist()  # converging step written through a rebinding whole-series assignment
+                vals[t] += 0.25
+                self.A = vals
         elif o == 'moved':
             s = d['_sc_n'][p]
             if v == 0:
@@ -103,6 +112,11 @@ class ScriptedBase:
                 self._B[t] = -20000.0 * s - 7.0
             elif v == 4:
                 self._A[t] -= 1.0
+            elif v == 5:
+                # whole-series assignment from a list REBINDS the array of a check variable during the solve
+                vals = self._B.tolist()
+                vals[t] = -30000.0 * s - 3.0
+                self.B = vals
         elif o == 'nanw':
             if v == 0:
                 self._A[t] = np.float64(1.0) / np.float64(0.0)
